@@ -441,6 +441,32 @@ def run(ctx) -> None:
         res.case(("scalar-cli-wins", key))
         if got != want:
             res.violate(f"{key}: config {cfgv!r} + command line {argv} gives {got!r}, the command line should win", {"kind": "scalar-cli-wins", "key": key}, {"config": {key: cfgv}, "argv": argv, "got": got, "want": want})
+    # a scalar value the command line refuses is refused in the config file too (and vice versa): "any option expressed in
+    # [tool.refurb] behaves like the same option given on the command line" includes being malformed
+    flag_of = {"python_version": "--python-version", "format": "--format", "sort_by": "--sort"}
+    for key, flag in flag_of.items():
+        for v in [x for x in BAD_STRINGS[key] if isinstance(x, str)] + ["3.9", "github", "error"]:
+            def refused(f):
+                try:
+                    f()
+                    return False
+                except ValueError as e:
+                    return str(e).startswith("refurb: ") or True
+
+            try:
+                text = toml_doc({"tool": {"refurb": {key: v}}})
+            except Exception:  # noqa: BLE001  (a value this TOML writer cannot express)
+                continue
+            in_cfg = refused(lambda: Settings.merge(parse_config_file(text), parse_command_line_args(["a.py"])))
+            on_cli = refused(lambda: parse_command_line_args(["a.py", flag, v]))
+            res.case(("malformed-equiv", key, v))
+            if in_cfg != on_cli:
+                res.violate(
+                    f"`{key} = {v!r}` is {'refused' if in_cfg else 'accepted'} in [tool.refurb] but {'refused' if on_cli else 'accepted'} as `{flag} {v!r}` on the command line",
+                    {"kind": "malformed-config-vs-cli", "key": key, "empty": v == ""},
+                    {"config": {key: v}, "argv": ["a.py", flag, v], "in_config_refused": in_cfg, "on_command_line_refused": on_cli,
+                     "how": "refurb.settings.parse_config_file(toml) vs refurb.settings.parse_command_line_args(argv)"},
+                )
     # "boolean options are or-ed": a switch the config file already sets changes nothing when it is given (first) on the
     # command line as well — whatever lists the two sides carry.  Checked on the implementation alone.
     bool_flags = {"quiet": "--quiet", "verbose": "--verbose", "enable_all": "--enable-all", "disable_all": "--disable-all"}
